@@ -108,7 +108,7 @@ theorem F15_repaired : typesOverlap tF15 8 2 3 = some true ∧ typesOverlap tF15
 theorem F15_same_field_disjoint_types : typesOverlap tF15 8 2 4 = some false := by decide
 /-- the intersection `(x: int) & (y: int)` of the spec's `'rw` example is no longer `never` -/
 theorem F15_intersection_not_never :
-    (intersect 16 8 tF15 2 3).map (·.2) = some 2 := by decide
+    (intersect Variant.current 16 8 tF15 2 3).map (·.2) = some 2 := by decide
 
 /-- f3628e7: 0 int, 1 bin, 2 `A(x: int)`, 3 `A[x: int]`, 4 `B[x: int]`, 5 `A[x: bin]`
 (A = 2, x = 3, B = 4) -/
@@ -248,21 +248,21 @@ def CompatTransStatement : Prop :=
 fuels): a well-labelled value of both operands is a value of the result, read in the table the
 function returns; that table only extends the old one and the result is first-order again. The
 fallback `types_overlap(a, b) ? a : never` is justified by `overlap_complete_fo`. -/
-theorem intersect_keeps (T T' : Table) (rf fuel a b r : Nat) (ha : FO T a) (hb : FO T b)
-    (h : intersect rf fuel T a b = some (T', r)) :
+theorem intersect_keeps (vr : Variant) (T T' : Table) (rf fuel a b r : Nat) (ha : FO T a) (hb : FO T b)
+    (h : intersect vr rf fuel T a b = some (T', r)) :
     ∀ v, v.wf = true → inh T [] a v → inh T [] b v → inh T' [] r v :=
-  (intersect_ok rf fuel T a b ha hb T' r h).2.2
+  (intersect_ok vr rf fuel T a b ha hb T' r h).2.2
 
-theorem intersect_extends (T T' : Table) (rf fuel a b r : Nat) (ha : FO T a) (hb : FO T b)
-    (h : intersect rf fuel T a b = some (T', r)) : Table.Sub T T' ∧ FO T' r :=
-  ⟨(intersect_ok rf fuel T a b ha hb T' r h).1, (intersect_ok rf fuel T a b ha hb T' r h).2.1⟩
+theorem intersect_extends (vr : Variant) (T T' : Table) (rf fuel a b r : Nat) (ha : FO T a) (hb : FO T b)
+    (h : intersect vr rf fuel T a b = some (T', r)) : Table.Sub T T' ∧ FO T' r :=
+  ⟨(intersect_ok vr rf fuel T a b ha hb T' r h).1, (intersect_ok vr rf fuel T a b ha hb T' r h).2.1⟩
 
 /-- non-trivial instance: `(x: int) & (y: int)` (the spec's `'rw`) keeps `[x: 1, y: 2]` -/
-example : ∃ T' r, intersect 16 8 tF15 2 3 = some (T', r) ∧ inh T' [] r vF15 := by
-  cases h : intersect 16 8 tF15 2 3 with
+example : ∃ T' r, intersect Variant.current 16 8 tF15 2 3 = some (T', r) ∧ inh T' [] r vF15 := by
+  cases h : intersect Variant.current 16 8 tF15 2 3 with
   | none => exact absurd h (by decide)
   | some p =>
-    exact ⟨p.1, p.2, rfl, intersect_keeps tF15 p.1 16 8 2 3 p.2 ⟨3, by decide⟩ ⟨3, by decide⟩ h vF15
+    exact ⟨p.1, p.2, rfl, intersect_keeps Variant.current tF15 p.1 16 8 2 3 p.2 ⟨3, by decide⟩ ⟨3, by decide⟩ h vF15
       (by decide) ⟨4, by decide⟩ ⟨4, by decide⟩⟩
 
 /-- narrowing by subtraction never drops a value that can occur — statement on first-order types
@@ -272,7 +272,7 @@ types forces equal labels; the harness evaluates it on the implementation's resu
 pair — no first-order failure in any run — and on recursive types it is false, see notes/C09.md R3) -/
 def ComplementKeepsStatement : Prop :=
   ∀ (T T' : Table) (rf fuel a b r : Nat), Ordered T → FO T a → FO T b →
-    complement rf fuel T a b = some (T', r) →
+    complement Variant.current rf fuel T a b = some (T', r) →
     ∀ v, v.wf = true → inh T [] a v → ¬ inh T [] b v → inh T' [] r v
 
 /-- **`union_type_ids` is sound and complete** (first-order arguments): the id it returns, read in
@@ -346,11 +346,54 @@ theorem R2_common_value : inh tR2 [] 2 (.proc 2) ∧ inh tR2 [] 3 (.proc 2) :=
 theorem overlap_complete_fails_on_process_types : ¬ OverlapCompleteStatement := fun h =>
   h tR2 2 3 8 (by decide) ⟨4, by decide⟩ ⟨4, by decide⟩ ⟨.proc 2, by decide, R2_common_value⟩ R2_no_overlap.1
 
-/-- R4: 0 int, 1 `^1`, 2 never, 3 `#(^1 -> int)`, 4 `#(#(^1 -> int) -> int)`: the model, like the
-code, makes no progress on this pair (the callable arm records no assumption): every fuel runs out -/
+/-- R4 (fixed by 30aca33): 0 int, 1 `^1`, 2 never, 3 `'f = #(^1 -> int)`, 4 `'g = #('f -> int)`. Without
+an assumption in the callable arm the check made no progress on this pair (the model, like the code,
+ran out of every fuel; the compiler overflowed its stack); with it the pair is accepted — `'g` is one
+unfolding of `'f`. -/
 def tR4 : Table :=
   ⟨[.integer, .cycle 1, .union [], .callable 1 0 2, .callable 3 0 2], [⟨none, []⟩, ⟨some 1, []⟩]⟩
 
-theorem R4_no_answer_with_64 : isCompatible tR4 64 3 4 = none := by decide
+theorem R4_old_rule_no_answer : compatV { callableNoAssumption := true } tR4 64 3 4 = none := by decide
+theorem R4_repaired : isCompatible tR4 16 3 4 = some true ∧ isCompatible tR4 16 4 3 = some true := by
+  decide
+
+/-- R3(i) (fixed by e0ad7de): 0 int, 1 `^1`, 2 `Nil`, 3 `Cons[int, ^]`, 4 `'l = Nil | Cons[int, ^]`,
+5 `None`, 6 `Cons[x: int, y: ^]`, 7 `'m = None | Cons[x: int, y: ^]`
+(Nil = 2, Cons = 3, None = 4, x = 5, y = 6) -/
+def tR3 : Table :=
+  ⟨[.integer, .cycle 1, .tuple 2, .tuple 3, .union [2, 3], .tuple 4, .tuple 5, .union [5, 6]],
+   [⟨none, []⟩, ⟨some 1, []⟩, ⟨some 2, []⟩, ⟨some 3, [(none, 0), (none, 1)]⟩, ⟨some 4, []⟩,
+    ⟨some 3, [(some 5, 0), (some 6, 1)]⟩]⟩
+
+/-- `Cons[5, Nil]` -/
+def vR3 : V := .tup (some 3) (.cons none (.int 5) (.cons none (.tup (some 2) .nil) .nil))
+
+theorem R3_value : inhB tR3 12 [] 4 vR3 = true ∧ inhB tR3 12 [] 7 vR3 = false := by decide
+/-- the old intersection `'l ∩ 'm` was `Cons[int, ^]` (labels ignored) … -/
+theorem R3_old_intersection :
+    (intersect { narrowIgnoresLabels := true } 32 8 tR3 4 7).map (·.2) = some 3 := by decide
+/-- … so the old complement of `'l` by that narrowed type, and by `'m` itself, lost the Cons values -/
+theorem R3_old_complement :
+    (complement { narrowIgnoresLabels := true } 32 8 tR3 4 7).map (·.2) = some 2 := by decide
+/-- now the intersection is `never` and the complement is `'l` itself -/
+theorem R3_repaired :
+    (intersect Variant.current 32 8 tR3 4 7).map (fun p => p.1.types[p.2]?) = some (some (.union [])) ∧
+      (complement Variant.current 32 8 tR3 4 7).map (·.2) = some 4 := by decide
+
+/-- R3(iii) (fixed by 9604765): 0 bin, 1 int, 2 `^1`, 3 `Ok[x: int, y: ^1]`, 4 `Ok[Ok[…]]`, 5 `^2`,
+6 `^2 | bin | int`, 7 `^2 | ^2`, 8 `@(6 / 7)`, 9 `'t = Ok[Ok[x: int, y: ^]] | @((^ | bin | int) / (^ | ^))`,
+10 `int | bin`, 11 `@(int / int | bin)`   (x = 2, y = 3) -/
+def tR3b : Table :=
+  ⟨[.binary, .integer, .cycle 1, .tuple 2, .tuple 3, .cycle 2, .union [5, 0, 1], .union [5, 5],
+    .process (some 6) (some 7), .union [4, 8], .union [1, 0], .process (some 1) (some 10)],
+   [⟨none, []⟩, ⟨some 1, []⟩, ⟨some 1, [(some 2, 1), (some 3, 2)]⟩, ⟨some 1, [(none, 3)]⟩]⟩
+
+theorem R3b_not_assignable : isCompatible tR3b 32 11 9 = some false := by decide
+/-- the old `contains_cycle` saw no cycle in the process variant, asked `is_compatible` about it with
+its cycles dangling, and the complement came out as `never` -/
+theorem R3b_old_complement :
+    (complement { cycleCheckSkipsCallable := true } 32 8 tR3b 11 9).map (fun p => p.1.types[p.2]?) =
+      some (some (.union [])) := by decide
+theorem R3b_repaired : (complement Variant.current 32 8 tR3b 11 9).map (·.2) = some 11 := by decide
 
 end C09
